@@ -14,9 +14,14 @@ for tc in ET.parse(junit).getroot().iter("testcase"):
     if not any(c.tag in ("failure", "error", "skipped") for c in tc):
         passed.add(tc.get("classname") + "::" + tc.get("name"))
 os.remove(junit)
-missing = [t for t in base["stable_pass"] if t not in passed]
+files = [a for a in sys.argv[2:] if a.endswith(".py")]
+stable = base["stable_pass"]
+if files:  # restrict the comparison to the test files that were run
+    mods = tuple(f[:-3].replace("/", ".") + "::" for f in files)
+    stable = [t for t in stable if t.startswith(mods)]
+missing = [t for t in stable if t not in passed]
 print(p.stdout.strip().splitlines()[-1])
-print("stable_pass expected %d, passing now %d, missing %d" % (len(base["stable_pass"]), len(base["stable_pass"]) - len(missing), len(missing)))
+print("stable_pass expected %d, passing now %d, missing %d" % (len(stable), len(stable) - len(missing), len(missing)))
 for t in missing[:40]:
     print("  NOT PASSING:", t)
 sys.exit(1 if missing else 0)
